@@ -63,6 +63,8 @@ pub fn gen_setup_band(r: &mut Rng, profile: Profile, max_k: u32, band: Option<u3
         band
     } else if profile != Profile::C07 {
         None
+    } else if max_k >= 50000 {
+        Some(20000)
     } else if max_k >= 5000 {
         Some(3000)
     } else if max_k >= 1000 {
@@ -73,7 +75,17 @@ pub fn gen_setup_band(r: &mut Rng, profile: Profile, max_k: u32, band: Option<u3
         None
     };
     let xl = band_lo.is_some();
-    let k_target = if let Some(lo) = band_lo { r.range(lo as u64, max_k as u64) as u32 } else { k_target };
+    let k_target = if let Some(lo) = band_lo {
+        let special = crate::rank::boundary_ks(lo, max_k);
+        if !special.is_empty() && r.chance(1, 4) {
+            // a block size whose P, W or L is a multiple of 64
+            *r.pick(&special)
+        } else {
+            r.range(lo as u64, max_k as u64) as u32
+        }
+    } else {
+        k_target
+    };
     let derived = r.chance(30, 100) && !xl;
     let mut with_defaults_mtu: Option<u16> = None;
     let mut oti: Option<Oti> = None;
